@@ -105,6 +105,7 @@ class Interp:
         self.trace_base = 0        # clauses of a callee evaluated at a call site see only the events it emits
         self.callsites = {}        # (callee, line) -> [reached, normal return feasible]
         self.dmap_keys = {}        # Ref -> key terms used on this path (for model concretisation)
+        self.shadowed = []         # newer heaps swapped out while an older state is being evaluated (old(), ...)
 
     # ================================================================ fresh
     def fresh(self, shape, name):
@@ -176,7 +177,7 @@ class Interp:
         self.heap.data[key] = content
         if self.creating_new:
             return          # a container created during execution (callee result, havoc): not part of older states
-        for s in self.snapshots:
+        for s in self.snapshots + self.shadowed:
             if key not in s.data and s.ver.get(key, 0) == self.heap.ver.get(key, 0):
                 s.data[key] = content
         if self.old_heap is not None and key not in self.old_heap.data:
@@ -251,11 +252,13 @@ class Interp:
         if ver == 0 and not self.creating_new:
             # everything created while materialising initial state belongs to the older states as well
             for k2 in set(h.data.keys()) - before:
-                for s_ in self.snapshots + [self.heap] + ([self.old_heap] if self.old_heap is not None else []):
+                for s_ in self.snapshots + self.shadowed + [self.heap] + \
+                        ([self.old_heap] if self.old_heap is not None else []):
                     if s_ is not h and k2 not in s_.data:
                         s_.data[k2] = h.data[k2]
         h.data[key] = v
-        for s in self.snapshots + [self.heap] + ([self.old_heap] if self.old_heap is not None else []):
+        for s in self.snapshots + self.shadowed + [self.heap] + \
+                ([self.old_heap] if self.old_heap is not None else []):
             if s is not h and key not in s.data and s.ver.get(key, 0) == ver:
                 s.data[key] = v
         return v
@@ -1144,10 +1147,28 @@ class Interp:
                 k = self.pyconst(idx)
                 if k is MISSING and c.get(idx) is not None:
                     return c.get(idx)
+                if k is MISSING and self.spec_depth:
+                    # clause: no forking - the value is the guarded merge over the keys it may be equal to
+                    eqs = []
+                    for kk, vv in c.entries:
+                        kkv = kk if isinstance(kk, Val) else self.const(kk)
+                        if kkv.tag == idx.tag:
+                            e_ = self.eq(idx, kkv)
+                            if self.ctx.solver.check(*(self.hyp + [e_])) != z3.unsat:
+                                eqs.append((e_, vv))
+                    if self.err_branch(z3.Not(z3.Or(*[e for e, _ in eqs])) if eqs else z3.BoolVal(True)):
+                        self.raise_("KeyError")
+                    if not eqs:
+                        raise HypInfeasible()
+                    out = eqs[-1][1]
+                    for e, vv in reversed(eqs[:-1]):
+                        out = self.merge(e, vv, out)
+                    return out
                 if k is MISSING:
                     # symbolic key over concrete dict: compare against each key
                     for kk, vv in c.entries:
-                        if self.ctx.branch(self.eq(idx, self.const(kk))):
+                        kkv = kk if isinstance(kk, Val) else self.const(kk)
+                        if kkv.tag == idx.tag and self.ctx.branch(self.eq(idx, kkv)):
                             return vv
                     self.raise_("KeyError")
                 v = c.get(k)
@@ -1350,9 +1371,11 @@ class Interp:
                     raise SpecError("old_iter() outside a loop body clause")
                 saved, saved_old = self.heap, self.old_heap
                 self.heap = self.iter_old_heap
+                self.shadowed.append(saved)
                 try:
                     return self.eval(n.args[0])
                 finally:
+                    self.shadowed.pop()
                     self.heap, self.old_heap = saved, saved_old
             if nm == "implies":
                 a = self.truth(self.eval(n.args[0]))
@@ -1402,9 +1425,11 @@ class Interp:
         saved = self.heap
         self.heap = self.old_heap
         saved_old = self.old_heap
+        self.shadowed.append(saved)
         try:
             return self.eval(expr)
         finally:
+            self.shadowed.pop()
             self.heap = saved
             self.old_heap = saved_old
 
